@@ -538,6 +538,32 @@ func (e *Engine) callByContract(st *State, fn *ssa.Function, ct *Contract, args 
 			}
 		}
 	}
+	if op := ct.Flags["outparams"]; op != "" {
+		// parameters of interface type that carry a pointer the callee assigns through (e.g. Get(key, &doc))
+		for _, pn := range strings.Split(op, ",") {
+			for i, p := range fn.Params {
+				if p.Name() != pn || i >= len(args) {
+					continue
+				}
+				if iv, ok := args[i].(VIface); ok {
+					if pv, ok := iv.V.(VPtr); ok {
+						if pt, ok := iv.Typ.(*types.Pointer); ok {
+							hv := e.havoc(st, pt.Elem(), "out."+pn)
+							if mv, ok := hv.(VMap); ok {
+								// the callee may leave a map nil
+								if obj, ok := st.heap[mv.Cell].(*MapObj); ok {
+									n := obj.clone()
+									n.NilT = e.fresh(st, "out."+pn+".isnil", SBool)
+									st.heap[mv.Cell] = n
+								}
+							}
+							e.store(st, pv, hv)
+						}
+					}
+				}
+			}
+		}
+	}
 	if ct.Flags["modifies"] == "db" {
 		e.havocDB(st, "after."+sanitize(ct.Short))
 	}
